@@ -167,6 +167,23 @@ class C19(Prop):
                 after = array_state(tab), (array_state(beta) if isinstance(beta, np.ndarray) else None)
                 if before != after:
                     f.append(("C19:labelling_step_modifies_input", "labelling step modified its input arrays"))
+                # a table with NaN costs (what a non-positive-definite MRF produces): the result is garbage and not
+                # compared, but the caller's table must come back untouched, writable or read-only
+                if tab.shape[1] >= 2:
+                    bad = np.array(tab, copy=True)
+                    bad[:, r.randrange(tab.shape[1])] = np.nan
+                    ro = r.random() < 0.5
+                    if ro:
+                        bad.setflags(write=False)
+                    snap = bad.copy()
+                    try:
+                        cla.assign_point_cluster_labels(label_assignment_cost=bad, label_switching_cost=beta)
+                        rec.probe("direct_labelling_calls_nan_table")
+                    except Exception as e:  # noqa: BLE001
+                        if ro and "read-only" in str(e):
+                            f.append(("C19:readonly_fails", f"labelling step fails on a read-only cost table: {type(e).__name__}: {e}"))
+                    if not np.array_equal(bad, snap, equal_nan=True):
+                        f.append(("C19:labelling_step_modifies_input", "labelling step changed entries of the cost table it was given"))
         return f
 
     def run_case(self, idx, seed, tier, mode):
